@@ -51,9 +51,38 @@ func ruleTokenErr(c *eng.Ctx) {
 		c.Viol(R, "core.(*Parser).nextToken#lexer", fn.Pos(), "nextToken does not call Lexer.NextToken")
 		return
 	}
+	// the error of the last lexer call: where the lexer is called again in a loop (comments skipped), the error that
+	// is tested after the loop is a phi of the calls' errors
+	errSet := map[ssa.Value]bool{}
+	for _, ci := range eng.CallsNamed(fn, false, "core.(*Lexer).NextToken") {
+		for _, r := range *ci.Value().Referrers() {
+			if ex, ok := r.(*ssa.Extract); ok && ex.Index == 1 {
+				errSet[ex] = true
+			}
+		}
+	}
+	for changed := true; changed; {
+		changed = false
+		eng.Instrs(fn, false, func(in ssa.Instruction) {
+			ph, ok := in.(*ssa.Phi)
+			if !ok || errSet[ph] || !eng.IsErrorType(ph.Type()) {
+				return
+			}
+			all := true
+			for _, e := range ph.Edges {
+				if !errSet[e] {
+					all = false
+				}
+			}
+			if all {
+				errSet[ph] = true
+				changed = true
+			}
+		})
+	}
 	errEdge := func(f eng.Fact) bool {
 		op, x, y, ok := f.Cmp()
-		return ok && op == token.NEQ && ((x == errv && eng.IsNilConst(y)) || (y == errv && eng.IsNilConst(x)))
+		return ok && op == token.NEQ && ((errSet[x] && eng.IsNilConst(y)) || (errSet[y] && eng.IsNilConst(x)))
 	}
 	// on the error edge the lookahead becomes a token of type TokenEOF: a store peekToken = &Token{Type: TokenEOF} on
 	// that edge, or (single-exit form) one store after the join whose value on the error edge is that token
